@@ -14,7 +14,7 @@ import common
 from common import sexp, parse_sexp
 import c10_world as W
 
-MODEL_FILES = ['MaltModel/Rt/Cache.lean', 'MaltModel/Proofs/C10Basic.lean', 'MaltModel/Proofs/C10Result.lean', 'MaltModel/Proofs/C10Progress.lean',
+MODEL_FILES = ['MaltModel/Generated/CacheLock.lean', 'MaltModel/Rt/Cache.lean', 'MaltModel/Proofs/C10Basic.lean', 'MaltModel/Proofs/C10Result.lean', 'MaltModel/Proofs/C10Progress.lean',
                'MaltModel/Proofs/C10Inv.lean', 'MaltModel/Proofs/C10Refine.lean', 'MaltModel/Drv/C10.lean']
 CLS_SIG = 'shared_code_different_namespace_directive_resolution'
 CLS_EQ = 'equal_code_objects_distinct_identity'
@@ -478,6 +478,13 @@ def analyse(run, res, answer):
             oc[(cid, sexp([opt[0], opt[1], opt[2], sorted(opt[3], key=FEAT_ORDER.get)]))] = cnt
         if lc != oc:
             corr.append('transform counts: model %s vs implementation %s' % (sorted(lc.items())[:4], sorted(oc.items())[:4]))
+    unsafe_gc = [int(x) for x in lean.get('unsafe-gc', [])] if lean is not None else None
+    if lean is not None and not unsafe_gc:
+        # the schedule is inside `SchedSafe`: C10_once_partial / C10_error_only_partial predict the real run
+        if any(cnt > 1 for _, _, cnt in res['xcount']):
+            corr.append('schedule is SchedSafe but a (code object, options) pair was converted more than once')
+        if any((o or '').startswith('err:KeyError') for os_ in res['outcomes'] for o in os_):
+            corr.append('schedule is SchedSafe but a request raised KeyError')
     # direct oracle verdicts -> failing cases with their class
     fails = []
     for v in res['verdicts']:
@@ -490,7 +497,8 @@ def analyse(run, res, answer):
             elif not src_ok or int(o[1]) in eq_ids:
                 cls = CLS_EQ
         elif o is not None and o[0] == 'err' and o[2] == 'False':
-            cls = CLS_EQ if int(o[1]) in eq_ids else None
+            # KeyError from the cache: negation of SchedSafe (an unsafe gc of an equal-valued code object)
+            cls = CLS_EQ if (int(o[1]) in eq_ids and unsafe_gc) else None
         elif lean is None:
             # log rejected / no driver: Python fallback of the same predicates (history-level)
             prog = res['progs'][v['thread']] if v.get('thread', -1) < len(res['progs']) and v.get('thread', -1) >= 0 else []
@@ -501,7 +509,7 @@ def analyse(run, res, answer):
     for cid, opt, cnt in res['xcount']:
         if cnt > 1:
             fails.append(({'what': 'transform_ast ran %d times for one (code object, options) while the code object was alive' % cnt,
-                           'code': cid, 'opt': opt}, CLS_EQ if cid in eq_ids else None))
+                           'code': cid, 'opt': opt}, CLS_EQ if (cid in eq_ids and (unsafe_gc or lean is None)) else None))
     return ok_validate, detail, corr, fails, lean
 
 
@@ -540,6 +548,7 @@ def check(run, only=None, repeat=1):
         'one store the proxies cannot intercept (into a bucket cache.py has just created as a plain dict) and weak-reference '
         'removals are recovered by diffing against a shadow copy around every operation',
     ]
+    run.translate(['CacheLock'])
     run.build_and_audit('MaltModel.Props.C10', model_files=MODEL_FILES)
     from malt.core import converter
     FEAT_ORDER.update({f.name: k for k, f in enumerate(converter.Feature)})
@@ -588,10 +597,42 @@ def check(run, only=None, repeat=1):
     tot = {'requests': 0, 'events': 0, 'gc_events': 0, 'addr_reuse': 0, 'shared_keys': 0, 'distinct_envs_same_key': 0}
     by_threads, by_flavour = {}, {}
     known_seen = {}
+    frag = {'histories': 0, 'validated': 0,
+            'inside ValInj&SigCoherent (C10_refines_ideal_partial: every request = fresh conversion)': 0,
+            'inside ValInj (C10_refines_partial: lookup-or-convert spec)': 0,
+            'inside SchedSafe (once / no-error / lock / progress theorems)': 0,
+            'inside SchedSafe but outside ValInj (gained by the dynamic hypothesis)': 0,
+            'outside SchedSafe (unsafe gc of an equal-valued code object)': 0,
+            'outside SigCoherent': 0}
+    freq = {'requests inside ValInj&SigCoherent': 0, 'requests inside SchedSafe': 0, 'requests total': 0}
     for r, a in zip(results, answers):
         ok, detail, corr, fails, lean = analyse(run, r, a)
         spec = r['spec']
         is_w = 'witness' in spec
+        frag['histories'] += 1
+        freq['requests total'] += r['nreq']
+        if lean is not None:
+            frag['validated'] += 1
+            vi = lean.get('valinj', ['False'])[0] == 'True'
+            sc = lean.get('sigcoherent', ['False'])[0] == 'True'
+            ss = not lean.get('unsafe-gc', [])
+            if vi and sc:
+                frag['inside ValInj&SigCoherent (C10_refines_ideal_partial: every request = fresh conversion)'] += 1
+                freq['requests inside ValInj&SigCoherent'] += r['nreq']
+                if fails:
+                    corr.append('history is inside ValInj & SigCoherent, yet a request differs from its fresh conversion: %s'
+                                % fails[0][0]['what'][:120])
+            if vi:
+                frag['inside ValInj (C10_refines_partial: lookup-or-convert spec)'] += 1
+            if ss:
+                frag['inside SchedSafe (once / no-error / lock / progress theorems)'] += 1
+                freq['requests inside SchedSafe'] += r['nreq']
+                if not vi:
+                    frag['inside SchedSafe but outside ValInj (gained by the dynamic hypothesis)'] += 1
+            else:
+                frag['outside SchedSafe (unsafe gc of an equal-valued code object)'] += 1
+            if not sc:
+                frag['outside SigCoherent'] += 1
         if not ok:
             rejects.append(detail)
         corr_all += ['history %s: %s' % (spec.get('index'), c) for c in corr]
@@ -638,6 +679,7 @@ def check(run, only=None, repeat=1):
         run.oblige('correspondence:outcomes-counts-classes', 'correspondence', not corr_all, '; '.join(corr_all[:3]))
     else:
         run.oblige('correspondence:cache-validate', 'correspondence', False, 'driver unavailable')
+    run.cov['proved_fragment'] = dict(frag, **freq)
     run.cov.update({'histories': len(results), 'threads_histogram': dict(sorted(by_threads.items())),
                     'flavours': by_flavour, 'paths': stats, 'exhaustive': False}, **tot)
     run.cov['search'] = ('direct oracle on %d requests of %d histories (behaviour vs fresh-PyToPy reference on sample inputs, '
